@@ -46,7 +46,8 @@ def gen_segment_history(rng, n, strict=False, reject=False):
                                    ['setparent', name, val], ['setparent_none', rng.randrange(0, 4)], ['settrav_replace', name, val],
                                    ['move_sibling', name.lower(), rng.randrange(0, 3), rng.randrange(0, 3)]]))
         elif k == 10:
-            ops.append(['setlong', name, val])
+            ops.append(['setlong', name, val] if rng.random() < .6 else
+                       ['copyi', name.lower(), rng.choice([0, 1, 1, 2, -1]), rng.sample(VALUES, 3)])
         else:
             ops.append(['read', name.lower()])
         if reject and rng.random() < .35:
@@ -107,7 +108,8 @@ def gen_message_history(rng, n, strict=False, reject=False):
         if k < 3:
             ops.append(['mset', s.lower(), txt])
         elif k == 3:
-            ops.append(['mseti', s.lower(), rng.randrange(0, 3), txt])
+            ops.append(['mseti', s.lower(), rng.randrange(0, 3), txt] if rng.random() < .7 else
+                       ['mcopyi', s.lower(), rng.choice([0, 1, 1, 2, -1]), ['%s|%s' % (s, x) for x in rng.sample(['p', 'q', 'r', 's'], 3)]])
         elif k == 4:
             ops.append(['madd', s, txt])
         elif k == 5:
@@ -320,6 +322,19 @@ def run_history(h):
             elif kind == 'seti':
                 getattr(root, op[1])[op[2]] = op[3]
                 spec.set(op[1].upper(), op[3], op[2])
+            elif kind == 'copyi':
+                # `dst.x[i] = src.x` where the source holds several repetitions: the FIRST one is copied by value into repetition i
+                src = Segment(h['segment'], version=v, validation_level=VL.TOLERANT)
+                for t in op[3]:
+                    f = Field(op[1].upper(), version=v, validation_level=VL.TOLERANT)
+                    f.value = t
+                    src.add(f)
+                src_before = src.to_er7()
+                substep()
+                getattr(root, op[1])[op[2]] = getattr(src, op[1])
+                spec.set(op[1].upper(), op[3][0], op[2])
+                if src.to_er7() != src_before:
+                    extra.append(('source-changed', '%r -> %r' % (src_before, src.to_er7())))
             elif kind == 'add':
                 f = Child(op[1], version=v, validation_level=lvl)
                 f.value = op[2]
@@ -499,6 +514,18 @@ def run_history(h):
             elif kind == 'mseti':
                 getattr(root, op[1])[op[2]] = op[3]
                 spec.set(op[1].upper(), op[3], op[2])
+            elif kind == 'mcopyi':
+                src = Message(h.get('structure', 'ADT_A01'), version=v, validation_level=VL.TOLERANT)
+                for t in op[3]:
+                    sg = Segment(op[1].upper(), version=v, validation_level=VL.TOLERANT)
+                    sg.value = t
+                    src.add(sg)
+                src_before = src.to_er7()
+                substep()
+                getattr(root, op[1])[op[2]] = getattr(src, op[1])
+                spec.set(op[1].upper(), op[3][0], op[2])
+                if src.to_er7() != src_before:
+                    extra.append(('source-changed', '%r -> %r' % (src_before, src.to_er7())))
             elif kind == 'madd':
                 s = Segment(op[1], version=v, validation_level=lvl)
                 s.value = op[2]
